@@ -336,6 +336,23 @@ def def_value(n, name):
     return None
 
 
+
+# ------------------------------------------------------------------- facts established by dominating tests (polarity-aware)
+_POS = {'member': ast.In, 'equal': ast.Eq, 'same': ast.Is}
+_NEG = {'member': ast.NotIn, 'equal': ast.NotEq, 'same': ast.IsNot}
+
+
+def established(g, n, kind, match, positive=True):
+    """does some test edge that dominates CFG node n establish the fact <left> in/==/is <right> (positive) or its negation?
+    `match(compare_ast)` selects the comparisons of interest.  Both spellings count: `a in b` on its true edge and `a not in b` on
+    its false edge establish membership; the other two establish non-membership."""
+    pos, neg = _POS[kind], _NEG[kind]
+    for t, lab in g.guarded_by(n, lambda t_: isinstance(t_, ast.Compare) and len(t_.ops) == 1 and isinstance(t_.ops[0], (pos, neg)) and match(t_)):
+        is_pos = isinstance(t.ast.ops[0], pos)
+        if ((lab == 'T') == is_pos) == positive:
+            return True
+    return False
+
 # ------------------------------------------------------------------- call graph
 def resolve_refs(idx, unit):
     """Units referenced from `unit`: calls and bare references (callbacks) to
